@@ -87,6 +87,11 @@ def shapes():
     res = {
         'header-block-many-fields': (HttpHeaderFields, lambda n: b''.join(b'X-H%d: v%d\r\n' % (i, i) for i in range(n)) + b'\r\n'),
         'header-block-known-fields': (HttpHeaderFields, lambda n: b''.join(b'Age: %d\r\nServer: s%d\r\n' % (i, i) for i in range(n // 2)) + b'\r\n'),
+        # rejected inputs must be linear too: line ends that are not CRLF, with field names the library knows and with others
+        'header-block-lf-only-known': (HttpHeaderFields, lambda n: b''.join(b'Server: s%d\n' % i for i in range(n))),
+        'header-block-lf-only-unknown': (HttpHeaderFields, lambda n: b''.join(b'X-H%d: v\n' % i for i in range(n))),
+        'header-block-cr-only-known': (HttpHeaderFields, lambda n: b''.join(b'Age: %d\r' % i for i in range(n))),
+        'header-block-blank-before-names': (HttpHeaderFields, lambda n: b''.join(b' Server: s%d\r\n' % i for i in range(n)) + b'\r\n'),
         'header-no-separator': (HttpHeaderFields, lambda n: b'A' * (8 * n) + b'\r\n\r\n'),
         'header-one-huge-value': (HttpHeaderFields, lambda n: b'X-Big: ' + b'v' * (8 * n) + b'\r\n\r\n'),
         'sts-many-unknown-directives': (HttpHeaderFieldValueSTS, lambda n: b'max-age=1' + b''.join(b'; a%d=b' % i for i in range(n))),
